@@ -587,6 +587,7 @@ class MsbuildMachine(RuleBasedStateMachine):
         self.survived_change = False
         self.changed_since = False
         self.defaults = []      # ids of the explicit default outputs
+        self.removed = []       # steps taken out of the script earlier
 
     @precondition(lambda self: any(s['kind'] in ('build_step', 'copy_file',
                                                  'multi_step')
@@ -656,9 +657,27 @@ class MsbuildMachine(RuleBasedStateMachine):
     def remove(self, data):
         s = data.draw(st.sampled_from(self.steps))
         self.steps.remove(s)
+        self.removed.append(s)
         for t in self.steps:
             t['deps'] = [d for d in t['deps'] if d != s['id']]
         self.history.append(['remove', s['name']])
+        self.changed_since = True
+
+    @precondition(lambda self: len(self.removed) > 0)
+    @rule(data=st.data())
+    def add_back(self, data):
+        """A step that was removed earlier is declared again, as it was."""
+        s = data.draw(st.sampled_from(self.removed))
+        used = self._names() | {project_name(t) for t in self.steps}
+        if s['name'] in used or any(
+                n.startswith(s['name'] + '/') or s['name'].startswith(n + '/')
+                for n in used):
+            return
+        self.removed.remove(s)
+        s = dict(s, id=self.next_id, deps=[])
+        self.next_id += 1
+        self.steps.append(s)
+        self.history.append(['add_back', s['kind'], s['name']])
         self.changed_since = True
 
     @precondition(lambda self: len(self.steps) > 0)
@@ -724,7 +743,29 @@ class MsbuildMachine(RuleBasedStateMachine):
         self.prev = now
 
 
+def core_histories():
+    """Always run: a step of every kind disappears from the script for one
+    generation and is declared again, with a dependent that stays."""
+    out = []
+    for kind in ('command', 'build_step', 'alias', 'copy_file', 'multi_step'):
+        for again in ('regenerate', 'configure'):
+            full = [[kind, 'p1', [], 'hi'], ['command', 'p2', ['p1'], 'hi'],
+                    ['alias', 'p3', ['p2'], 'hi']]
+            less = [['command', 'p2', [], 'hi'], ['alias', 'p3', ['p2'], 'hi']]
+            out.append([['configure', full, []], ['regenerate', less, []],
+                        [again, full, []], ['regenerate', full, []]])
+    return out
+
+
 def _run_b(rec, seed, budget, shard, nshards):
+    for k, h in enumerate(core_histories()):
+        if k % nshards != shard:
+            continue
+        rec.case({'core-history'}, nontrivial=['core', k], sample=h)
+        try:
+            replay_history(h, rec)
+        except Violation as v:
+            rec.fail('core/' + v.key, v.message, {'history': h})
     run_machine(rec, MsbuildMachine, budget, 14, seed)
 
 
